@@ -349,6 +349,7 @@ func init() {
 			return "fixed"
 		}))
 	}
+	ops["glyf.indep"] = glyfIndepOp
 	ops["glyf.decpure"] = glyfDecPureOp
 	ops["glyf.encpure"] = glyfEncPureOp
 	ops["glyf.simple"] = glyfSimpleOp
@@ -630,6 +631,61 @@ func glyfEncPureOp(f Fields) string {
 		return "pure"
 	}))
 }
+
+// glyfIndepOp (direct predicate): results of successive calls are independent.  Encode A and
+// keep the result and the glyphs decoded from it; then encode and decode B (and B again, and A
+// again); A's tables must still be the bytes first returned and decode to the same glyphs, and
+// the glyphs decoded first must be unchanged.
+func glyfIndepOp(f Fields) string {
+	return canonPanic(guard(func() string {
+		ga, gb := glyfParseGlyphs(f["a"]), glyfParseGlyphs(f["b"])
+		ea := ga.Encode()
+		snapG := append([]byte(nil), ea.GlyfData...)
+		snapL := append([]byte(nil), ea.LocaData...)
+		snapF := ea.LocaFormat
+		da, errA := glyf.Decode(ea)
+		showA := "err"
+		if errA == nil {
+			showA = glyfShowGlyphs(da)
+		}
+		// other work in between
+		eb := gb.Encode()
+		db, errB := glyf.Decode(eb)
+		showB := "err"
+		if errB == nil {
+			showB = glyfShowGlyphs(db)
+		}
+		eb2 := gb.Encode()
+		_ = glyfParseGlyphs(f["a"]).Encode()
+		switch {
+		case ea.LocaFormat != snapF || !bytes.Equal(ea.LocaData, snapL):
+			return "first-result-changed:loca"
+		case !bytes.Equal(ea.GlyfData, snapG):
+			return "first-result-changed:glyf"
+		}
+		if errA == nil && glyfShowGlyphs(da) != showA {
+			return "first-decoded-glyphs-changed"
+		}
+		da2, err := glyf.Decode(ea)
+		if (err != nil) != (errA != nil) || (err == nil && glyfShowGlyphs(da2) != showA) {
+			return "first-result-decodes-differently"
+		}
+		if errB == nil && glyfShowGlyphs(db) != showB {
+			return "second-decoded-glyphs-changed"
+		}
+		db2, err := glyf.Decode(eb)
+		if (err != nil) != (errB != nil) || (err == nil && glyfShowGlyphs(db2) != showB) {
+			return "second-result-decodes-differently"
+		}
+		if eb2.LocaFormat != eb.LocaFormat || !bytes.Equal(eb2.LocaData, eb.LocaData) || !bytes.Equal(eb2.GlyfData, eb.GlyfData) {
+			return "repeat-encode-differs"
+		}
+		return "independent"
+	}))
+}
+
+// glyfPrevSets remembers a few recent small glyph sets (as case-line text) for pair cases.
+var glyfPrevSets []string
 
 // glyfCompsString shows Components() of every glyph: nil, or the glyph indices.
 func glyfCompsString(gg glyf.Glyphs) string {
@@ -1073,6 +1129,22 @@ func glyfSetCase(c *Ctx, gg glyf.Glyphs, wf bool) {
 	if glen > 20000 {
 		return
 	}
+	// independence of successive results: pairs with earlier sets (smaller, larger) and itself
+	cur := arg[3:]
+	if len(cur) < 12000 {
+		for _, prev := range glyfPrevSets {
+			if r.Chance(1, 2) {
+				c.Case(Direct, "glyf.indep", "a="+prev+" b="+cur, true)
+			} else {
+				c.Case(Direct, "glyf.indep", "a="+cur+" b="+prev, true)
+			}
+		}
+		c.Case(Direct, "glyf.indep", "a="+cur+" b="+cur, nontriv)
+		glyfPrevSets = append(glyfPrevSets, cur)
+		if len(glyfPrevSets) > 2 {
+			glyfPrevSets = glyfPrevSets[1:]
+		}
+	}
 	// purity of Encode with respect to the caller's memory (capacity poisoning)
 	c.Case(Direct, "glyf.encpure", arg, simple > 0)
 	for style := 0; style < 2; style++ {
@@ -1268,6 +1340,7 @@ func glyfLocaLengthCases(c *Ctx) {
 
 func areaGlyf(c *Ctx) {
 	r := c.Rng
+	glyfPrevSets = nil
 	// --- 0, 1, 2 glyphs around the loca format switch; loca tables of every small length
 	glyfSmallSetsAtFormatBoundary(c)
 	glyfLocaLengthCases(c)
